@@ -629,3 +629,33 @@ pub fn deep_bed<const N: usize, R: bed::feature::Record<N>>(d: &mut Deep, rec: &
         d.val("other", v);
     }
 }
+
+// ------------------------------------------------------------------------------------------------
+// small element builders shared with async twins
+
+pub fn fasta_element(name: &[u8], description: Option<&[u8]>, sequence: &[u8]) -> String {
+    format!("R:{}\t{}\t{}", esc(name), description.map(esc).unwrap_or_else(|| "<none>".into()), esc(sequence))
+}
+
+pub fn fastq_element(rec: &noodles_fastq::Record) -> String {
+    format!("R:{}\t{}\t{}\t{}", esc(rec.name()), esc(rec.description()), esc(rec.sequence()), esc(rec.quality_scores()))
+}
+
+/// `C:` element of a CRAM container (`len` = what `read_container` returned).
+pub fn cram_container(len: usize, container: &noodles_cram::io::reader::Container) -> String {
+    let h = container.header();
+    format!(
+        "C:len={len};ctx={:?};records={};counter={};bases={};blocks={};landmarks={:?}",
+        h.reference_sequence_context(),
+        h.record_count(),
+        h.record_counter(),
+        h.base_count(),
+        h.block_count(),
+        h.landmarks()
+    )
+}
+
+/// `I:` element of an index value (or of one index record).
+pub fn index_element<I: std::fmt::Debug>(index: &I) -> String {
+    format!("I:{index:?}")
+}
